@@ -464,6 +464,33 @@ def b_zip(I, args, kw, node):
 @builtin("sum")
 def b_sum(I, args, kw, node):
     tot = args[1] if len(args) > 1 else 0
+    if isinstance(args[0], SymGen):
+        # sum of `elt for x in seq` with a symbolic number of items: a prefix-sum function PS with PS(lo) = 0 and
+        # PS(k + 1) = PS(k) + elt(k) for every k in range; the sum is PS(hi).  (Facts that need induction over PS are
+        # lemmas of the contract that uses it; the function is remembered under I.ghost["last_prefix_sum"].)
+        from .interp import Frame
+        g = args[0]
+        lo, hi = to_z3(g.lo), to_z3(g.hi)
+        k = z3.Int(I.fresh_name("gk"))
+        npc = len(I.pc)
+        I.pc.append(z3.And(lo <= k, k < hi))
+        fr = Frame(g.frame.module, {}, parent=g.frame, spec=g.frame.spec)
+        I.frames.append(fr)
+        try:
+            I.assign(g.target, g.getter(k))
+            el = to_z3(I.ev(g.elt))
+        finally:
+            I.frames.pop()
+        extras = [to_z3(c) for c in I.pc[npc + 1:]]
+        guard = I.pc[npc]
+        del I.pc[npc:]
+        if extras:
+            I.oblige("call-pre", "generator-element-uniform", z3.ForAll([k], z3.Implies(guard, z3.And(*extras))))
+        PS = z3.Function(I.fresh_name("prefix_sum"), z3.IntSort(), el.sort())
+        I.assume(PS(lo) == 0)
+        I.assume(z3.ForAll([k], z3.Implies(guard, PS(k + 1) == PS(k) + el)))
+        I.ghost["last_prefix_sum"] = (PS, lo, hi, k, el)
+        return I.binop(ast.Add(), tot, z3.If(hi > lo, PS(hi), 0), node)
     if isinstance(args[0], Abstract) and hasattr(args[0], "builtin_sum"):
         return I.binop(ast.Add(), tot, args[0].builtin_sum(I), node)
     for x in I.iterate(args[0], node):
